@@ -215,4 +215,89 @@ theorem periodicThreads_fixed (m n : Nat) : ∀ t ∈ periodicThreads false m n,
     rw [ha.2]
     trivial
 
+/-! ## CForest monitor -/
+
+/-- what holds of the monitor after any sequence of reports: `best` is the last entry of a strictly decreasing history,
+`shared` counts its entries, and `best` is at most every cost in `seen` -/
+structure MInv (seen : List Nat) (s : MStore) : Prop where
+  decreasing : s.hist.Pairwise (fun a b => b < a)
+  best_last : s.best = s.hist.getLast?
+  shared_len : s.shared = s.hist.length
+  hist_ge : ∀ a ∈ s.hist, ∃ b, s.best = some b ∧ b ≤ a
+  seen_ge : ∀ c ∈ seen, ∃ b, s.best = some b ∧ b ≤ c
+  hist_seen : ∀ a ∈ s.hist, a ∈ seen
+
+theorem minv_init : MInv [] MStore.init :=
+  ⟨List.Pairwise.nil, rfl, rfl, by intro a h; simp [MStore.init] at h, by intro c h; simp at h,
+    by intro a h; simp [MStore.init] at h⟩
+
+theorem minv_report (seen : List Nat) (s : MStore) (c : Nat) (h : MInv seen s) :
+    MInv (seen ++ [c]) (MStep.apply (.report c) s) := by
+  by_cases hb : betterThan c s.best = true
+  · have happly : MStep.apply (.report c) s =
+        { s with best := some c, shared := s.shared + 1, hist := s.hist ++ [c] } := by simp [MStep.apply, hb]
+    rw [happly]
+    have hlt : ∀ b, s.best = some b → c < b := by
+      intro b hbb
+      rw [hbb] at hb
+      simpa [betterThan] using hb
+    refine ⟨?_, by simp, by simp [h.shared_len], ?_, ?_, ?_⟩
+    · rw [List.pairwise_append]
+      refine ⟨h.decreasing, List.pairwise_singleton _ _, ?_⟩
+      intro a ha x hx
+      rw [List.mem_singleton.mp hx]
+      obtain ⟨b, hbb, hba⟩ := h.hist_ge a ha
+      exact Nat.lt_of_lt_of_le (hlt b hbb) hba
+    · intro a ha
+      rcases List.mem_append.mp ha with ha | ha
+      · obtain ⟨b, hbb, hba⟩ := h.hist_ge a ha
+        exact ⟨c, rfl, Nat.le_of_lt (Nat.lt_of_lt_of_le (hlt b hbb) hba)⟩
+      · rw [List.mem_singleton.mp ha]; exact ⟨c, rfl, Nat.le_refl _⟩
+    · intro x hx
+      rcases List.mem_append.mp hx with hx | hx
+      · obtain ⟨b, hbb, hbx⟩ := h.seen_ge x hx
+        exact ⟨c, rfl, Nat.le_of_lt (Nat.lt_of_lt_of_le (hlt b hbb) hbx)⟩
+      · rw [List.mem_singleton.mp hx]; exact ⟨c, rfl, Nat.le_refl _⟩
+    · intro a ha
+      rcases List.mem_append.mp ha with ha | ha
+      · exact List.mem_append_left _ (h.hist_seen a ha)
+      · exact List.mem_append_right _ ha
+  · have happly : MStep.apply (.report c) s = s := by simp [MStep.apply, hb]
+    rw [happly]
+    have hge : ∃ b, s.best = some b ∧ b ≤ c := by
+      cases hbest : s.best with
+      | none => rw [hbest] at hb; simp [betterThan] at hb
+      | some b => rw [hbest] at hb; exact ⟨b, rfl, by simpa [betterThan] using hb⟩
+    refine ⟨h.decreasing, h.best_last, h.shared_len, h.hist_ge, ?_, fun a ha => List.mem_append_left _ (h.hist_seen a ha)⟩
+    intro x hx
+    rcases List.mem_append.mp hx with hx | hx
+    · exact h.seen_ge x hx
+    · rw [List.mem_singleton.mp hx]; exact hge
+
+theorem minv_run (cs seen : List Nat) (s : MStore) (h : MInv seen s) :
+    MInv (seen ++ cs) (runSteps MStep.apply (cs.map MStep.report) s) := by
+  induction cs generalizing seen s with
+  | nil => simpa [runSteps] using h
+  | cons c cs ih =>
+    have := ih (seen ++ [c]) _ (minv_report seen s c h)
+    simpa [runSteps_cons] using this
+
+theorem reportThreads_go_monitor (t : Nat) (css : List (List Nat)) :
+    reportThreads.go true t css = css.map (fun cs => cs.map MStep.report) := by
+  induction css generalizing t with
+  | nil => rfl
+  | cons cs css ih => simp [reportThreads.go, ih]
+
+theorem reportThreads_monitor (css : List (List Nat)) :
+    reportThreads true css = css.map (fun cs => cs.map MStep.report) := reportThreads_go_monitor 0 css
+
+theorem exists_map_report (tr : List MStep) (h : ∀ a ∈ tr, ∃ c, a = MStep.report c) :
+    ∃ l : List Nat, tr = l.map MStep.report := by
+  induction tr with
+  | nil => exact ⟨[], rfl⟩
+  | cons a tr ih =>
+    obtain ⟨c, rfl⟩ := h a (List.mem_cons_self ..)
+    obtain ⟨l, rfl⟩ := ih (fun b hb => h b (List.mem_cons_of_mem _ hb))
+    exact ⟨c :: l, rfl⟩
+
 end OmplModel.Interleave
